@@ -40,6 +40,15 @@ def extra_programs():
     add('inl/nested_inline', [F('g', 'u8', [('u8', 'y')], Block([If(B('==', V('y'), C(3)), ret(C(7))), ret(V('y'))])),
                               F('f', 'u8', [('u8', 'x')], Block([ret(B('+', Call('g', [V('x')]), Call('g', [C(3)])))]))],
         [A(V('vb'), Call('f', [V('va')])), A(V('vc'), Call('g', [V('vb')]))])
+    add('inl/nested_twice', [F('g', 'u8', [('u8', 'y')], Block([If(B('==', V('y'), C(3)), ret(C(7))), ret(V('y'))])),
+                             F('f', 'u8', [('u8', 'x')], Block([ret(B('+', Call('g', [V('x')]), Call('g', [C(3)])))]))],
+        [A(V('vb'), Call('f', [V('va')])), A(V('vc'), Call('f', [V('vb')])), A(V('vd'), Call('g', [V('vc')]))])
+    add('inl/nested_loop_twice', [F('g', 'u8', [('u8', 'n')], Block([A(V('n'), B('&', V('n'), C(3))), A(V('r'), C(0)), While(V('n'), Block([dec('n'), inc('r')])), ret(V('r'))], decls=[('u8', 'r', C(0))])),
+                                  F('f', 'u8', [('u8', 'x')], Block([If(B('>', V('x'), C(100)), ret(Call('g', [C(2)]))), ret(Call('g', [V('x')]))]))],
+        [A(V('vb'), Call('f', [V('va')])), If(V('vb'), A(V('vc'), Call('f', [V('vb')])), A(V('vc'), Call('f', [C(200)])))])
+    add('inl/nested3', [F('h', None, [], Block([If(V('vd'), Block([A(V('vd'), C(0)), Return()])), inc('sb')])), F('g', None, [], Block([ExprS(Call('h', [])), inc('sc'), ExprS(Call('h', []))])),
+                        F('f', None, [], Block([ExprS(Call('g', [])), If(V('sb'), ExprS(Call('g', [])))]))],
+        [ExprS(Call('f', [])), A(V('vc'), C(1)), ExprS(Call('f', []))], extra=['vd', 'sb', 'sc'])
     add('inl/loop_in_body_twice', [F('f', 'u8', [('u8', 'n')], Block([A(V('n'), B('&', V('n'), C(3))), A(V('r'), C(0)), While(V('n'), Block([dec('n'), A(V('r'), C(2), '+=')])), ret(V('r'))], decls=[('u8', 'r', C(0))]))],
         [A(V('vb'), Call('f', [V('va')])), A(V('vc'), Call('f', [V('vb')]))])
     add('inl/in_loop', [F('f', None, [('u8', 'v')], Block([If(B('&', V('v'), C(1)), inc('vc'), inc('vd'))]))],
